@@ -21,11 +21,22 @@ MANIFEST = {
             "(C15_skeleton_as_modelled breaks when a header's critical section changes). The real headers are compiled into a stress "
             "probe (plain and -fsanitize=thread, g++ and clang++), whose handler log is judged by an independent oracle, and into a "
             "schedule-replay probe (std::mutex/condition_variable/thread replaced by a controlled-scheduler shim) that must agree "
-            "step by step with the extracted LTS.",
+            "step by step with the extracted LTS. Object lifetime (Model/CxxLifetime.v: an owner destroys a DERIVED dispatcher in C++ "
+            "order -- derived destructor body, derived members, ~threaded_dispatcher -> shutdown() -> joins; derived part alive / dying / "
+            "dead; the worker's virtual call handle_dispatch): C15_lifetime_safe_with_shutdown (a derived destructor that calls "
+            "shutdown() first: no virtual call and no running handler ever meets a derived part that is not alive, any schedule / workers / "
+            "queue content), C15_lifetime_refuted_without_shutdown (schedule witness = K-C15-2), tied to the source by "
+            "C15_shutdown_protocol_shape (shutdown() protected, joins guarded by joinable(), base destructor calls it, handler pure "
+            "virtual). Notifications (Model/CxxNotify.v, explicit signals, no spurious wake-ups): C15_notify_per_push (source: one "
+            "unconditional notification after every push), C15_notify_per_push_no_missed_wakeup (any consumers/pushes/schedule), "
+            "C15_notify_on_transition_only_refuted (two consumers). A model-free explorer runs the real headers over a raw scheduler shim "
+            "(lost and spurious wake-ups, rendezvous jobs, the derived probe class destroyed with and without shutdown()).",
     "note": "Model of the headers after two `fix:` commits (m_shutting_down is std::atomic<bool>; protected shutdown() for derived "
             "classes). Outside the model (stated, not verified): the C++ memory model itself (only its lockset/atomic discipline), "
-            "object lifetime -- a derived class that does not call shutdown() in its own destructor still races on the vptr "
-            "(known finding K-C15-2), dispatching during destruction, destroying a stand-alone queue with waiting consumers. "
+            "what the derived class's members and handler do with each other (the lifetime LTS knows only alive/dying/dead and the "
+            "virtual call; K-C15-2 -- a derived class that does not call shutdown() first -- stays a known finding, now with a model "
+            "witness), destruction of the object by a worker's own handler, dispatching during destruction, destroying a stand-alone "
+            "queue with waiting consumers, spurious wake-ups in the Coq models (the raw shim explores them on the real code). "
             "Fairness is the only liveness assumption. TSan and random/enumerated schedules are search, not proof.",
 }
 RULE = ("stress probe runs: workers 1..3 x producers 1..4 x items x {destroy after all handled, destroy while busy} x handler delay, "
@@ -225,11 +236,16 @@ def run(ctx):
     # 4 schedule replay of the real headers against the extracted LTS
     from .. import c15replay
     c15replay.run(ctx)
+    # 5 the derived dispatcher destroyed in C++ order against the lifetime LTS
+    c15replay.run_lifetime(ctx)
 
 
 def replay(ctx, data):
     """True iff the property holds for this probe configuration (or schedule) on the current headers."""
     if "args" not in data:
+        if data.get("lifetime"):
+            from .. import c15replay
+            return c15replay.replay_lifetime(ctx, data)
         if data.get("explore"):
             from .. import c15search
             return c15search.replay(ctx, data)
